@@ -1888,11 +1888,11 @@ class VM:
             return float("nan")
 
         def indexOf(*args):
-            search = to_string(args[0]) if args else ""
+            search = to_string(args[0]) if args else "undefined"
             return s.find(search, position(args, 1, 0))
 
         def lastIndexOf(*args):
-            search = to_string(args[0]) if args else ""
+            search = to_string(args[0]) if args else "undefined"
             if len(search) > size:
                 return -1
             # the position is converted with ToNumber first: NaN means "from the end"
@@ -1997,19 +1997,19 @@ class VM:
             return s * count
 
         def startsWith(*args):
-            search = to_string(args[0]) if args else ""
+            search = to_string(args[0]) if args else "undefined"
             return s.startswith(search, position(args, 1, 0))
 
         def endsWith(*args):
-            search = to_string(args[0]) if args else ""
+            search = to_string(args[0]) if args else "undefined"
             return s.endswith(search, 0, position(args, 1, size))
 
         def includes(*args):
-            search = to_string(args[0]) if args else ""
+            search = to_string(args[0]) if args else "undefined"
             return s.find(search, position(args, 1, 0)) != -1
 
         def replace(*args):
-            pattern = args[0] if args else ""
+            pattern = args[0] if args else UNDEFINED
             replacement = to_string(args[1]) if len(args) > 1 else "undefined"
 
             if isinstance(pattern, JSRegExp):
@@ -2082,7 +2082,7 @@ class VM:
                 return s
 
         def replaceAll(*args):
-            pattern = args[0] if args else ""
+            pattern = args[0] if args else UNDEFINED
             replacement = to_string(args[1]) if len(args) > 1 else "undefined"
 
             if isinstance(pattern, JSRegExp):
